@@ -125,7 +125,7 @@ fn topic_rules(s: u32, t: u32, topics_forced: Option<bool>) {
 }
 // with a topic table present in every stream record
 harness! { #[kani::unwind(8)] fn c09_topic_rules_sound_s1_t1_t() { topic_rules(1, 1, Some(true)) } }
-harness! { #[kani::unwind(8)] fn c09_topic_rules_sound_s1_t2() { topic_rules(1, 2, Some(true)) } }
+harness! { #[kani::unwind(8)] fn c09_topic_rules_sound_s1_t2_t() { topic_rules(1, 2, Some(true)) } }
 // "evaluating permissions never crashes whatever combination of records the user has":
 // stream records WITHOUT a topic table
 harness! { #[kani::unwind(8)] fn c09_topic_rules_never_crash_without_topic_table() { topic_rules(1, 1, None) } }
